@@ -123,5 +123,17 @@ func Specs() map[string]*PropSpec {
 		Assumptions: []string{"codec and gogoproto Marshal/Unmarshal are an inverse pair on typed blobs", "legacy param subspace = one typed blob"},
 		Stubs:       []string{"zzverif.MemStore", "c19AK (account keeper returning module accounts)"},
 	}
+	an := func(kv ...string) Inst { return Inst{Pkg: "app/ante", Fn: "VerifC06_Routes", Params: pm(kv...)} }
+	m["C06"] = &PropSpec{
+		ID: "C06", Pkgs: []string{"./app/ante"},
+		Quick:    []Inst{an("depth", "2", "width", "2", "top", "2"), an("depth", "8", "width", "1", "top", "1")},
+		Thorough: []Inst{an("depth", "2", "width", "2", "top", "2"), an("depth", "3", "width", "2", "top", "1"), an("depth", "9", "width", "1", "top", "2")},
+		Bounds: map[string]string{
+			"quick":    "every transaction of <= 2 top-level messages, nesting depth <= 2 with <= 2 children per MsgExec (7 node kinds: exec, grant of eth / vesting-create / send, MsgEthereumTx, MsgCreateVestingAccount, MsgSend), plus single chains nested up to depth 8 (beyond the cap of 7); every list of <= 2 extension options over {eth, web3, dynamic-fee, unknown}",
+			"thorough": "additionally depth 3 x width 2 (1 top-level message) and chains to depth 9 with 2 top-level messages",
+		},
+		Outside:     []string{"the type assertions inside the individual eth-route decorators (they need keeper stubs; planned with the eth ante harnesses)", "wider / deeper forests than the bound", "decorators after the blocking ones (they can only reject more)"},
+		Assumptions: []string{"message type URLs come from the generated RegisterType calls (extracted statically)", "codectypes.Any packing keeps the cached value (real SDK code executed)", "all inputs are concrete after the symbolic choice: this check is exhaustive path enumeration over the bounded forest space, stated as such"},
+	}
 	return m
 }
